@@ -143,3 +143,72 @@ Section MethodsLe2.
     - intros a c. apply omin_l; auto.
     - rewrite avg_opening2_length by auto. unfold lenZ in Hl. lia. Qed.
 End MethodsLe2.
+
+(* ---------- 2-D operators commute with monotone maps ---------- *)
+Section GridCommute.
+  Variables (A B : Type) (leA : A -> A -> bool) (leB : B -> B -> bool).
+  Hypothesis totA : total leA.
+  Hypothesis trA : transitive leA.
+  Hypothesis totB : total leB.
+  Hypothesis trB : transitive leB.
+  Hypothesis asB : antisym leB.
+  Variable phi : A -> B.
+  Hypothesis phi_mono : forall a b, leA a b = true -> leB (phi a) (phi b) = true.
+  Variables nr nc hr hc : Z.
+  Hypothesis Hr : 0 < nr.
+  Hypothesis Hc : 0 < nc.
+
+  Lemma on_grid_map (opA : (Z * Z -> A) -> Z * Z -> A) (opB : (Z * Z -> B) -> Z * Z -> B) y :
+    lenZ y = nr * nc ->
+    (forall f ij, dom2 nr nc ij -> opB (fun p => phi (f p)) ij = phi (opA f ij)) ->
+    (forall f g ij, (forall p, dom2 nr nc p -> f p = g p) -> dom2 nr nc ij -> opB f ij = opB g ij) ->
+    on_grid opB nr nc (map phi y) = map phi (on_grid opA nr nc y).
+  Proof. intros Hl Hcm Hext.
+    destruct y as [|d y']; [unfold lenZ in Hl; simpl in Hl; nia|]. set (y := d :: y') in *.
+    assert (Hy : y <> []) by (unfold y; congruence).
+    assert (Hmy : map phi y <> []) by (unfold y; simpl; congruence).
+    assert (Hlm : lenZ (map phi y) = nr * nc) by (unfold lenZ in *; rewrite map_length; auto).
+    apply (list_eq_nthZ _ _ (phi d)).
+    - rewrite map_length, !on_grid_length by auto. reflexivity.
+    - intros k Hk. unfold lenZ in Hk. rewrite on_grid_length in Hk by auto.
+      assert (Hk' : 0 <= k < nr * nc) by nia.
+      rewrite on_grid_nth by auto.
+      assert (E : nthZ (phi d) (map phi (on_grid opA nr nc y)) k = phi (nthZ d (on_grid opA nr nc y) k))
+        by (unfold nthZ; apply (map_nth phi)).
+      rewrite E. rewrite on_grid_nth by auto.
+      destruct (unflat_index nr nc k Hc Hk') as [H1 [H2 H3]].
+      rewrite <- Hcm by (split; auto).
+      apply Hext; [|split; auto].
+      intros [i j] [D1 D2]. simpl in D1, D2. simpl fst; simpl snd. unfold nthZ. simpl hd. apply (map_nth phi). Qed.
+
+  Let fzA_ok := fun (f : Z * Z -> A) ij (H : dom2 nr nc ij) => freeze2_ok nr nc f ij Hc H.
+  Let fzB_ok := fun (f : Z * Z -> B) ij (H : dom2 nr nc ij) => freeze2_ok nr nc f ij Hc H.
+  Let nbd := fun ij ab (H0 : dom2 nr nc ij) (H : In ab (nb2 nr nc hr hc ij)) => nb2_dom nr nc hr hc ij ab Hr Hc H.
+
+  Theorem erosion_g_commute y : lenZ y = nr * nc ->
+    erosion_g leB nr nc hr hc (map phi y) = map phi (erosion_g leA nr nc hr hc y).
+  Proof. intros Hl. unfold erosion_g. apply on_grid_map; auto.
+    - intros f ij Hd. unfold erosion2.
+      apply (ero_commute A B leA leB totA trA totB trB asB phi phi_mono (Z * Z)
+               (freeze2 nr nc) (freeze2 nr nc) (nb2 nr nc hr hc) (dom2 nr nc) fzA_ok fzB_ok); auto.
+    - intros f g ij H Hd. unfold erosion2.
+      apply (ero_ext B leB (Z * Z) (freeze2 nr nc) (nb2 nr nc hr hc) (dom2 nr nc) fzB_ok nbd); auto. Qed.
+
+  Theorem dilation_g_commute y : lenZ y = nr * nc ->
+    dilation_g leB nr nc hr hc (map phi y) = map phi (dilation_g leA nr nc hr hc y).
+  Proof. intros Hl. unfold dilation_g. apply on_grid_map; auto.
+    - intros f ij Hd. unfold dilation2.
+      apply (dil_commute A B leA leB totA trA totB trB asB phi phi_mono (Z * Z)
+               (freeze2 nr nc) (freeze2 nr nc) (nb2 nr nc hr hc) (dom2 nr nc) fzA_ok fzB_ok); auto.
+    - intros f g ij H Hd. unfold dilation2.
+      apply (dil_ext B leB (Z * Z) (freeze2 nr nc) (nb2 nr nc hr hc) (dom2 nr nc) fzB_ok nbd); auto. Qed.
+
+  Theorem opening_g_commute y : lenZ y = nr * nc ->
+    opening_g leB nr nc hr hc (map phi y) = map phi (opening_g leA nr nc hr hc y).
+  Proof. intros Hl. unfold opening_g. apply on_grid_map; auto.
+    - intros f ij Hd. unfold opening2.
+      apply (opening_commute A B leA leB totA trA totB trB asB phi phi_mono (Z * Z)
+               (freeze2 nr nc) (freeze2 nr nc) (nb2 nr nc hr hc) (dom2 nr nc) fzA_ok fzB_ok nbd); auto.
+    - intros f g ij H Hd. unfold opening2.
+      apply (opn_ext B leB (Z * Z) (freeze2 nr nc) (nb2 nr nc hr hc) (dom2 nr nc) fzB_ok nbd); auto. Qed.
+End GridCommute.
